@@ -118,7 +118,7 @@ def run(db, chk) -> None:
     targets = [(ta, "TraceAnalysis.generate_trace_with_counters"), (cp, "CriticalPathAnalysis.overlay_critical_path_analysis"), (tf, "update_trace_rank")]
     total = 0
     for mod, q in targets:
-        f = mod.func(q)
+        f = H.inline_helpers(mod, mod.func(q))          # the read / append / write sequence may sit in a private helper
         al = _aliases(f)
         # the nested helper of update_trace_rank receives the dict as its first parameter
         for nf in [x for x in ast.walk(f) if isinstance(x, ast.FunctionDef) and x is not f]:
@@ -273,17 +273,18 @@ def _compression(db, chk, tf, tm, tp):
     sites = [(tp, "parse_trace_dict", "reader"), (tf, "read_trace", "reader"), (tf, "create_rank_to_trace_dict", "reader"), (tf, "write_trace", "writer"), (tm, "Trace.write_raw_trace", "writer")]
     for mod, q, kind in sites:
         f = mod.func(q)
-        src = ast.unparse(f)
+        unit = H.with_private_callees(mod, f)          # the opener may be chosen in a private helper
+        walk_unit = lambda: (n for g_ in unit for n in ast.walk(g_))
         # uses of the two openers, called directly or selected by reference (`opener = gzip.open if ... else open`)
-        gz = [c for c in ast.walk(f) if isinstance(c, ast.Attribute) and isinstance(c.ctx, ast.Load) and ast.unparse(c) == "gzip.open"]
-        plain = [c for c in ast.walk(f) if isinstance(c, ast.Name) and isinstance(c.ctx, ast.Load) and c.id == "open"]
-        tests = [n for n in ast.walk(f) if isinstance(n, ast.Call) and isinstance(n.func, ast.Attribute) and n.func.attr == "endswith" and n.args and lit(n.args[0]) in (".gz", "gz")]
+        gz = [c for c in walk_unit() if isinstance(c, ast.Attribute) and isinstance(c.ctx, ast.Load) and ast.unparse(c) == "gzip.open"]
+        plain = [c for c in walk_unit() if isinstance(c, ast.Name) and isinstance(c.ctx, ast.Load) and c.id == "open"]
+        tests = [n for n in walk_unit() if isinstance(n, ast.Call) and isinstance(n.func, ast.Attribute) and n.func.attr == "endswith" and n.args and lit(n.args[0]) in (".gz", "gz")]
         # each gzip.open must be selected by a suffix test: enclosing If / IfExp whose test is one of `tests`
         guarded = True
         for c in gz:
             cur = mod.parent.get(id(c))
             found = False
-            while cur is not None and cur is not f:
+            while cur is not None and not any(cur is g_ for g_ in unit):
                 if isinstance(cur, (ast.If, ast.IfExp)) and any(t is x for t in tests for x in ast.walk(cur.test)):
                     neg = 0
                     tt = cur.test
@@ -300,7 +301,7 @@ def _compression(db, chk, tf, tm, tp):
         chk.ob(rule, f"{kind} {mod.name}:{q} chooses gzip exactly when the file name ends with .gz, and plain text otherwise", ok, mod.loc(f),
                found={"gzip.open": len(gz), "open": len(plain), "suffix tests": [ast.unparse(t) for t in tests]}, accepted="gzip.open(...) if path.endswith('.gz') else open(...)",
                why="a writer that always compresses produces a gzip stream under a .json name that none of the readers can load (F4)", key=f"{mod.name}:{q}|always-gzip")
-    g = db.mod("hta.trace_analysis").func("TraceAnalysis.generate_trace_with_counters")
+    g = H.inline_helpers(db.mod("hta.trace_analysis"), db.mod("hta.trace_analysis").func("TraceAnalysis.generate_trace_with_counters"))
     rep = [c for c in ast.walk(g) if isinstance(c, ast.Call) and isinstance(c.func, ast.Attribute) and c.func.attr == "replace" and c.args and lit(c.args[0]) == ".json"]
     okn = len(rep) == 1 and isinstance(rep[0].args[1], ast.JoinedStr) and ast.unparse(rep[0].args[1]).endswith(".json'")
     chk.ob(rule, "the counters file keeps the source's suffix (.json stays .json, .json.gz stays .json.gz)", okn, db.mod("hta.trace_analysis").loc(g), found=[ast.unparse(c) for c in rep], accepted=".replace('.json', f'{suffix}.json')")
@@ -316,7 +317,7 @@ def _compression(db, chk, tf, tm, tp):
 def _rank_regex(db, chk, tf, tm, ta):
     rule = "C20.R4-rank-discovery"
     f = tf.func("create_rank_to_trace_dict")
-    pats = [lit(c.args[0]) for c in ast.walk(f) if isinstance(c, ast.Call) and call_name(c) == "re.compile"]
+    pats = [lit(c.args[0]) for c in H.compiled_patterns(tf, [f]) if c.args]
     ok = pats == ['"rank":\\s+(\\d+)']
     chk.ob(rule, "rank discovery reads the number following '\"rank\":' and at least one whitespace", ok, tf.loc(f), found=pats, accepted=['"rank":\\s+(\\d+)'])
     reads = [c for c in ast.walk(f) if isinstance(c, ast.Call) and isinstance(c.func, ast.Attribute) and c.func.attr in ("read", "readline", "readlines") and (c.args or c.keywords)]
